@@ -422,7 +422,9 @@ def polar_coordinates(
         return dist, np.arctan2(diff[..., 1], diff[..., 0])
 
     elif grid.dim == 3:
-        theta = np.arccos(diff[..., 2] / dist)
+        # the angle is arbitrary (but must be finite) for a point right at the origin
+        cos_theta = np.divide(diff[..., 2], dist, out=np.zeros_like(dist), where=dist > 0)
+        theta = np.arccos(cos_theta)
         phi = np.arctan2(diff[..., 1], diff[..., 0])
         return dist, theta, phi
 
